@@ -131,6 +131,45 @@ class Report:
             stmt = stmt[:157] + "..."
         self.add(Finding(self.prop, rule, construct, stmt, message, file=file, line=line, path=path))
 
+    def borrow(self, repo, src_prop, mapping, keep=None):
+        """Run another property's rule module and take over some of its rules under this property's own rule ids.
+
+        mapping: {source rule id: (own rule id, description, floor)}.  The borrowed rule must be a necessary condition of
+        this property as well (the description says why).  keep(finding) -> bool optionally restricts the findings.
+        """
+        import importlib
+
+        cache = repo.__dict__.setdefault("_borrow_cache", {})
+        key = (src_prop, self.tier)
+        sub = cache.get(key)
+        if sub is None:
+            mod = importlib.import_module(f"hgsa.rules.{src_prop.lower()}")
+            sub = Report(src_prop, self.tier)
+            mod.run(repo, sub, self.tier)
+            cache[key] = sub
+        for src_rule, (own_rule, desc, floor) in mapping.items():
+            st = sub.rules.get(src_rule)
+            if st is None:
+                from .loader import AnalysisError
+
+                raise AnalysisError(f"borrowed rule {src_prop}/{src_rule} does not exist")
+            r = self.rule(own_rule, f"{desc} [shared with {src_prop}/{src_rule}]", floor=floor)
+            nf = 0
+            for f in sub.findings:
+                if f.rule == src_rule and (keep is None or keep(f)):
+                    nf += 1
+                    self.add(Finding(self.prop, own_rule, f.construct, f.stmt, f.message, file=f.file, line=f.line, path=f.path))
+            r.obligations += st.obligations
+            r.discharged += max(0, st.obligations - nf) if keep is not None else st.discharged
+            for smp in st.samples[:3]:
+                if len(r.samples) < 6:
+                    r.samples.append(smp)
+        self.analysed_functions |= sub.analysed_functions
+        for d in getattr(sub, "deferred", []) or []:
+            if not hasattr(self, "deferred"):
+                self.deferred = []
+            self.deferred.append(d)
+
     # ------------------------------------------------------------------ finishing
     def check_floors(self):
         from .loader import AnalysisError
